@@ -151,3 +151,24 @@ func (e *EdgeQuery) VerifOptions() VerifEdgeQueryOptions {
 		UseBruteForce:    e.opts.useBruteForce,
 	}
 }
+
+// VerifTargetDistanceToEdge returns the distance that the given distance target
+// (a value returned by one of the NewMin/MaxDistanceTo...Target constructors)
+// itself reports for one edge, starting from "no limit".
+func VerifTargetDistanceToEdge(target any, e Edge) (s1.ChordAngle, bool) {
+	t := target.(distanceTarget)
+	d, ok := t.updateDistanceToEdge(e, t.distance().infinity())
+	if !ok {
+		return 0, false
+	}
+	return d.chordAngle(), true
+}
+
+// VerifTargetUsesMaxError reports whether the target type takes advantage of MaxError.
+func VerifTargetUsesMaxError(target any) bool {
+	return target.(distanceTarget).setMaxError(0)
+}
+
+// VerifEdgeQueryPaths counts how often the optimized and the brute-force
+// search of EdgeQuery ran (verification builds only).
+var VerifEdgeQueryPaths struct{ Optimized, BruteForce int64 }
